@@ -304,17 +304,19 @@ def worker(args):
     deadline = args[7] if len(args) > 7 else None
     mod = importlib.import_module(modname)
     rng = random.Random(seed * 7919 + shard)
-    if deadline is None:
-        cases = list(mod.gen(tier, rng, shard, nshards))
-        impl_out = [call_impl(mod, s, l) for s, l in cases]
-    else:
-        # time-capped exploration (escalation after a source change): stop generating when the budget is used up
-        cases, impl_out = [], []
-        for s, l in mod.gen(tier, rng, shard, nshards):
-            cases.append((s, l))
-            impl_out.append(call_impl(mod, s, l))
-            if time.time() > deadline:
+    # a confirmed hang costs 30 s + 120 s of watchdog: after two of them in one worker the remaining cases are dropped
+    # (the hangs themselves are reported; going on would only make the run take hours)
+    cases, impl_out, hangs = [], [], 0
+    for s, l in mod.gen(tier, rng, shard, nshards):
+        cases.append((s, l))
+        impl_out.append(call_impl(mod, s, l))
+        if impl_out[-1] == "exc Timeout":
+            hangs += 1
+            if hangs >= 2:
                 break
+        # time-capped exploration (escalation after a source change): stop generating when the budget is used up
+        if deadline is not None and time.time() > deadline:
+            break
     lines = [c[1] for c in cases]
     model_out = run_driver(mod.DRIVER, lines) if (have_driver and lines) else [None] * len(lines)
     stats = {"n": len(cases), "by_stream": {}, "outcomes": {}, "distinct_nontrivial": set(), "samples": {}}
